@@ -711,7 +711,7 @@ func lemma_parseFrame_trans(p *Parser) {
 //@   ensures [demands@C12] implies(len(p.errors) == len(old(p.errors)) && !isNil(result), ncalls("(*Parser).ExpectToken") == 1 && callArg[token.Type]("(*Parser).ExpectToken", 0, 1) == token.RBRACKET)
 
 //@ func (p *Parser) ParseExpressionList(end)
-//@   props C11 C16 C13 C12
+//@   props C11 C16 C13 C12 C02
 //@   use parseFrame ctxStable errorSites atToken
 //@   rank 44
 //@   ensures [wf@C11] implies(len(p.errors) == len(old(p.errors)), forall(0, len(result), func(k int) bool { return !isNil(result[k]) }))
@@ -719,6 +719,8 @@ func lemma_parseFrame_trans(p *Parser) {
 //@   loop 1 invariant [frame] parserInv(p) && sameCtx(p.contextStack, old(p.contextStack)) && p.currentExpressionPrecedence == old(p.currentExpressionPrecedence) && isPrefixErr(old(p.errors), p.errors) && parserMeasure(p) < old(parserMeasure(p))
 //@   loop 1 decreases parserMeasure(p)
 //@   ensures [demands@C12] implies(len(p.errors) == len(old(p.errors)) && result != nil && old(p.PeekToken.Type) != end, ncalls("(*Parser).ExpectToken") == 1 && callArg[token.Type]("(*Parser).ExpectToken", 0, 1) == end)
+//@   atcall (*Parser).ParseExpressionWithPrecedence [element.level@C02,C03] false
+//@   atcall slotExprFn [element.level@C02,C03] false
 
 //@ func (p *Parser) ParseProgram()
 //@   props C11 C16 C13
@@ -908,11 +910,11 @@ func tablesSeeded(p *Parser) bool {
 //@   ensures [modes@C13] result.tolerantMode == opts.tolerantMode && result.smartSemicolons == opts.smartSemicolons
 
 //@ func NewBuilder(lb)
-//@   props C05 C14
+//@   props C05 C14 C13 C02
 //@   loop 1 invariant [seed] registeredInfixOps != nil && fresh(registeredInfixOps) && forallKeys(registeredInfixOps, func(t token.Type) bool { return seen(t) }) && forallKeys(precedences, func(t token.Type) bool { return implies(seen(t), has(registeredInfixOps, t)) })
 //@   ensures [fresh@C14] result != nil && fresh(result) && fresh(result.registeredInfixOps) && fresh(result.registeredPrefixOps) && fresh(result.registeredPostfixOps)
 //@   ensures [lexer] result.LexerBuilder == lb
-//@   ensures [empty] len(result.stmtInterceptors) == 0 && len(result.expInterceptors) == 0 && len(result.prefixOperators) == 0 && len(result.infixOperators) == 0 && len(result.postfixOperators) == 0 && !result.tolerantMode && !result.smartSemicolons
+//@   ensures [empty@C05,C14,C13,C02,C04] len(result.stmtInterceptors) == 0 && len(result.expInterceptors) == 0 && len(result.prefixOperators) == 0 && len(result.infixOperators) == 0 && len(result.postfixOperators) == 0 && !result.tolerantMode && !result.smartSemicolons
 //@   ensures [seed.infix@C05] forallKeys(result.registeredInfixOps, func(t token.Type) bool { return builtinInfix(t) }) && forallKeys(precedences, func(t token.Type) bool { return has(result.registeredInfixOps, t) })
 //@   ensures [seed.prefix@C05] forallKeys(result.registeredPrefixOps, func(t token.Type) bool { return builtinPrefix(t) }) && has(result.registeredPrefixOps, token.IDENT) && has(result.registeredPrefixOps, token.INT) && has(result.registeredPrefixOps, token.FLOAT) && has(result.registeredPrefixOps, token.STRING) && has(result.registeredPrefixOps, token.RAW_STRING) && has(result.registeredPrefixOps, token.TRUE) && has(result.registeredPrefixOps, token.FALSE) && has(result.registeredPrefixOps, token.NULL) && has(result.registeredPrefixOps, token.NOT) && has(result.registeredPrefixOps, token.MINUS) && has(result.registeredPrefixOps, token.INCREMENT) && has(result.registeredPrefixOps, token.DECREMENT) && has(result.registeredPrefixOps, token.LPAREN) && has(result.registeredPrefixOps, token.LBRACKET) && has(result.registeredPrefixOps, token.LBRACE) && has(result.registeredPrefixOps, token.FUNCTION)
 //@   ensures [seed.postfix@C05] forallKeys(result.registeredPostfixOps, func(t token.Type) bool { return builtinPostfix(t) }) && has(result.registeredPostfixOps, token.INCREMENT) && has(result.registeredPostfixOps, token.DECREMENT)
